@@ -42,7 +42,14 @@ shape-determining `evaluate` parameters, guarded parameters, photon conversion, 
 theorem class_table_as_modelled :
     ∀ m ∈ modelled, ∃ c ∈ rateClasses, c.name = m.name ∧ c.evalParams = m.evalParams
       ∧ c.guarded = m.guarded
-      ∧ c.extrap.map (·.2) = m.extrap.map (·.2) ∧ (c.photon != []) = m.photon := by decide
+      ∧ c.extrap.map (·.2) = m.extrap.map (·.2) ∧ (c.photon != []) = m.photon
+      ∧ c.chain = m.chain ∧ c.chainOk = true := by decide
+
+/-- every multiplicative factor of every `evaluate` chain is followed by `if rate <= 0: return 0.0` (with
+`cxChainF_nonneg`: BeamCXPEC is non-negative between knots too; without the last clamp
+`cxChainF_negative_without_final_clamp` applies) -/
+theorem clamps_complete :
+    ∀ c ∈ rateClasses, c.chainOk = true ∧ (c.chain.all fun t => t.2.2) = true := by decide
 
 /-- every rate class returned by an accessor is modelled -/
 theorem rate_classes_modelled : ∀ a ∈ accessors, a.rateClass ∈ modelled.map (·.name) := by decide
